@@ -58,6 +58,9 @@ func init() {
 			if rule == "P0" || rule == "D5" || rule == "D1" {
 				return rule != "D1" || strings.Contains(key, "clickhouse_planner")
 			}
+			if rule == "D7" {
+				return strings.Contains(key, "clickhouse_planner") && hasAny(key, "&LRAPlanner", "&UnwrapFunctionPlanner", "&AggOpPlanner", "&ComparisonPlanner", "&TopKPlanner", "&QuantilePlanner", "&ByWithoutPlanner", "&StepFixPlanner")
+			}
 			return strings.HasPrefix(key, "reader/logql/logql_transpiler_v2/clickhouse_planner.") && hasAny(key, metricPlanners...)
 		}),
 	}
@@ -227,4 +230,28 @@ func init() {
 			return rule != "E2" || strings.Contains(key, "reader/")
 		}),
 	}
+	// rules added after the first round of seeded changes
+	add := func(id string, rules ...string) {
+		properties[id].Rules = append(properties[id].Rules, rules...)
+	}
+	add("C01", "B2", "O1")
+	add("C02", "B2", "O1")
+	add("C05", "F5")
+	add("C06", "F5")
+	add("C07", "D7")
+	add("C08", "D7")
+	add("C09", "O1", "D7")
+	add("C13", "H4")
+	add("C14", "H4")
+	properties["C01"].Filter = keepIf(func(rule, key string) bool { return rule != "O1" || strings.HasPrefix(key, "writer/") })
+	properties["C02"].Filter = keepIf(func(rule, key string) bool { return rule != "O1" || strings.HasPrefix(key, "writer/") })
+	properties["C01"].Explanation += " (B2) the buffer swap is one critical section; (O1) a promise list / buffer that was handed over is replaced by a fresh value, never re-sliced."
+	properties["C02"].Explanation += " (B2) columns, promises and size are swapped in one critical section; (O1) swapped-out buffers are detached (fresh values), so later appends cannot write into a block that is being sent."
+	properties["C05"].Explanation += " (F5) ids that feed FixedString columns are length-checked where they enter the row model, before any column of the shared batch is extended."
+	properties["C06"].Explanation += " (F5) trace/span ids enter the row model only with the exact widths 16/8."
+	properties["C07"].Explanation += " (D7) every planned stage wraps the chain built so far (no stage silently replaces its predecessors)."
+	properties["C08"].Explanation += " (D7) every planned stage wraps the chain built so far."
+	properties["C09"].Explanation += " (O1) a batch of entries sent to the next pipeline stage is never re-sliced and appended to by the sender (entries lost/duplicated depending on scheduling); (D7) the in-process stage chain wraps its predecessor."
+	properties["C13"].Explanation += " (H4) statements memoised across executions of a plan (the fp_sel WITH) do not depend on the window end, so a live tail's index bounds do not freeze."
+	properties["C14"].Explanation += " (H4) memoised sub-plans do not read the window end."
 }
